@@ -265,14 +265,14 @@ _doc_common = dict(
     required=["kind:null", "kind:one", "kind:many", "kind:ident", "kind:idents", "kind:errors", "coll:resources",
               "coll:soft", "coll:wrapcol", "impl:soft", "impl:wrap", "included", "attrs-exposed", "rel-data:absent",
               "rel-data:null", "rel-data:one", "rel-data:many", "include:added", "include:skipped", "include:resources",
-              "member-with-wider-type", "served-a-narrower-request-before"],
+              "member-with-wider-type", "served-a-narrower-request-before", "while-others-marshal"],
     assumptions=["fixed two-type schema (t1: 2 attributes, to-one, to-many; t2: attribute, to-one), soft or struct-backed",
                  "documents are generated by the driver (seeded), TLC judges every recorded document",
                  "attribute values are representatives from the value tables; ids, prefixes and meta come from small "
                  "vocabularies containing characters JSON and URLs must escape"],
     coverage=False,
 )
-prop("C02", driver=_doc,
+prop("C02", driver=_doc, crash_is_violation=True,
      level_text="TLC model-checks an operational MarshalDocument/Include over some thirty-five thousand documents (structure, selection, "
                 "no leak, unique linkage); the driver builds seeded documents of every primary-data kind and "
                 "container with the real library, marshals, unmarshals against the same schema and projects both "
@@ -518,7 +518,11 @@ def run_family(pid, tier, seed):
                 raise
             case = json.load(open(inflight))
             path = V.write_replay(pid, P["family"], case, dict(ev="crash", fatal=V.crashed(e)), "NONE")
-            again = V.replay_event(drv, P["family"], path, env=env)
+            # (a case that runs goroutines of its own dies with some probability only: it is given several tries)
+            for attempt in range(15):
+                again = V.replay_event(drv, P["family"], path, env=env)
+                if again.get("ev") == "crash":
+                    break
             if again.get("ev") != "crash":
                 os.remove(path)
                 raise V.Infra("the driver died (%s) but the case in flight does not do it again on its own" % V.crashed(e))
